@@ -28,6 +28,7 @@ static std::vector<Case> make_cases(const Config &cfg) {
     if (fam == "status" || fam == "early") {
       for (int st = 0; st < 256; st++) { Case c = base(d); c.name = std::string(d) + " queue-exit-" + std::to_string(st); c.qstatus = st; c.expect_class = st == 0 ? 0 : ((st >= 11 && st <= 40) ? 5 : 4); if (st == 115) c.expect_class = 45; if (st == 82) c.expect_class = 4; v.push_back(c); }
       for (const char *t : {"Dcustom permanent text", "Zcustom temporary text", "Dx", "Z", ""}) { Case c = base(d); c.name = std::string(d) + " queue-exit-82[" + t + "]"; c.qstatus = 82; c.qtext = t; c.expect_class = (strlen(t) > 2 && t[0] == 'D') ? 5 : 4; v.push_back(c); }
+      for (int len : {254, 255, 256, 257, 1000}) { Case c = base(d); c.qstatus = 82; c.qtext = "D" + std::string(len - 1, 'x'); c.name = std::string(d) + " queue-exit-82 with " + std::to_string(len) + " bytes of text"; c.expect_class = 5; v.push_back(c); }   // the text is kept in a 256-byte buffer
       { Case c = base(d); c.name = std::string(d) + " queue-crash"; c.qcrash = true; c.expect_class = 4; v.push_back(c); }
       // a queue program (QMAILQUEUE) that makes up its mind before it has read anything: the daemon's writes then fail, the exit status still decides the class
       for (int st : {31, 11, 53, 81}) for (const char *t : {"", "Dpolicy says no"}) { if (*t && st != 31) continue; Case c = base(d); c.qearly = true; c.qstatus = *t ? 82 : st; c.qtext = t; c.name = std::string(d) + " queue program exits " + std::to_string(c.qstatus) + (*t ? " [" + std::string(t) + "]" : "") + " without reading its input";
